@@ -24,7 +24,7 @@ Record lpage := { lp_v2 : bool; lp_nvals : N; lp_def : list hrun; lp_store : vst
 Inductive litem := LDict (enc : Z) (vals : list value) | LData (p : lpage).
 Record lchunk := { lc_codec : Z; lc_items : list litem; lc_stats : bool }.
 Record lleaf := { ll_name : bytes; ll_type : ptype; ll_tlen : N; ll_optional : bool; ll_conv : option Z;
-                  ll_logical : option tv }.
+                  ll_logical : option tv; ll_scale : option Z; ll_prec : option Z }.
 Record lfile := { l_leaves : list lleaf; l_rgs : list (list lchunk); l_created_by : option bytes }.
 
 Definition desc_of (l : lleaf) : coldesc :=
@@ -71,7 +71,8 @@ Fixpoint map2_opt {A B C} (f : A -> B -> option C) (a : list A) (b : list B) : o
   end.
 
 Definition leaf_of_l (l : lleaf) : leaf :=
-  {| lf_name := ll_name l; lf_desc := desc_of l; lf_conv := ll_conv l; lf_logical := ll_logical l |}.
+  {| lf_name := ll_name l; lf_desc := desc_of l; lf_conv := ll_conv l; lf_logical := ll_logical l;
+     lf_scale := ll_scale l; lf_prec := ll_prec l |}.
 
 (* the table a laid-out file denotes: its leaves and, per row group and column, the cells *)
 Definition table_of (f : lfile) : option (list leaf * list (list (list (option value)))) :=
@@ -195,11 +196,11 @@ Definition selem_of_l (l : lleaf) : selem :=
   {| se_type := Some (ptype_id (ll_type l));
      se_tlen := match ll_type l with FLBA => Some (Z.of_N (ll_tlen l)) | _ => None end;
      se_rep := Some (if ll_optional l then 1 else 0)%Z; se_name := ll_name l; se_nchildren := None;
-     se_conv := ll_conv l; se_logical := ll_logical l |}.
+     se_conv := ll_conv l; se_logical := ll_logical l; se_scale := ll_scale l; se_prec := ll_prec l |}.
 
 Definition root_selem (n : N) : selem :=
   {| se_type := None; se_tlen := None; se_rep := None; se_name := [115; 99; 104; 101; 109; 97] (* "schema" *);
-     se_nchildren := Some (Z.of_N n); se_conv := None; se_logical := None |}.
+     se_nchildren := Some (Z.of_N n); se_conv := None; se_logical := None; se_scale := None; se_prec := None |}.
 
 Definition enc_file (f : lfile) : bytes :=
   let '(bs, rgs, _) := enc_rgs (l_leaves f) (l_rgs f) 4 in
